@@ -346,6 +346,22 @@ def m_generic_t_cmp(ctx, args, callee):
     raise Unmodelled('<T as Ord>::cmp on %r' % (type(a).__name__,))
 
 
+@model(r'^<(&?)(std::string::String|str|&str) as PartialOrd(<.*>)?>::(lt|le|gt|ge)$', 'str_order')
+def m_str_order(ctx, args, callee):
+    """`a < b` ... on texts: byte-lexicographic (UTF-8 keeps the order of the code points, which is z3's str.<)"""
+    a = as_str(ctx, args[0]); b = as_str(ctx, args[1])
+    k = callee.rsplit('::', 1)[1]
+    if a.s is not None and b.s is not None:
+        x, y = a.s.encode(), b.s.encode()
+        return BoolVal({'lt': x < y, 'le': x <= y, 'gt': x > y, 'ge': x >= y}[k])
+    if isinstance(a, SpecialStr) or isinstance(b, SpecialStr) or a.tab is not None or b.tab is not None:
+        r = m_str_cmp(ctx, args, '<std::string::String as Ord>::cmp')
+        d = BitVecVal(r.d, 64) if isinstance(r.d, int) else r.d
+        return {'lt': d == -1, 'le': d != 1, 'gt': d == 1, 'ge': d != -1}[k]
+    ta, tb = a.z3term(), b.z3term()
+    return {'lt': ta < tb, 'le': ta <= tb, 'gt': tb < ta, 'ge': tb <= ta}[k]
+
+
 @model(r'^<(&?)(std::string::String|str|&str) as (Ord|PartialOrd)>::(cmp|partial_cmp)$', 'str_cmp')
 def m_str_cmp(ctx, args, callee):
     """byte-lexicographic order of strings"""
